@@ -1386,8 +1386,11 @@ void __tsan_atomic_signal_fence(int mo) { (void)mo; }
 
 // ---------------------------------------------------------------------------
 // hooks from the guarded sites in /repo (machine_specific.h)
+static uint64_t spin_calls_t[VS_MAX_THREADS];
+uint64_t vs_spin_calls(void) { return ACTIVE && vs.cur ? spin_calls_t[vs.cur->id] : 0; }
 void verif_spin(void) {
   if (!ACTIVE || vs.in_rt) return;
+  spin_calls_t[vs.cur->id]++;
   vs.points++;
   forced_yield();
 }
